@@ -74,6 +74,13 @@ pub fn run(rep: &mut Report, thorough: bool) {
             flow(i >= 65536, 1, 1).icmp_echo(0xbeef, i as u16, b"data")
         });
         crate::props::pairs::pair_histories(rep, cfg, &format!("pair-histories-{}", tag), &crate::props::pairs::l2l4_frames());
+        sweep_frames(rep, cfg, &format!("echo6-sources-{}", tag), "ICMPv6 echo from 12 source address forms x 3 destinations", 12 * 3, |i| {
+            let srcs: Vec<Ip> = vec![cli6(), Ip::parse("fe80::1"), Ip::parse("::1"), Ip::parse("::ffff:10.0.0.9"), cli6b(), Ip::parse("::ffff:10.66.6.6"), Ip::parse("::10.66.6.6"), Ip::parse("2002:a42:606::1"), Ip::parse("64:ff9b::10.66.6.6"), Ip::parse("::a42:606"), Ip::parse("2001:db8::bad:1"), Ip::parse("::ffff:0.0.0.0")];
+            let mut f = flow6(1, 1);
+            f.cip = srcs[(i % 12) as usize];
+            f.sip = [srv6(), srv6b(), Ip::parse("2001:db8::2")][(i / 12) as usize];
+            f.icmp_echo(9, 9, b"src")
+        });
         // link-layer trailers: bytes after the IP datagram (Ethernet padding of short frames, FCS
         // remnants) are not part of the message
         let dims = [4u64, 21, 20, 2];
@@ -116,9 +123,10 @@ pub fn run(rep: &mut Report, thorough: bool) {
             (Ip::parse("2001:db8::2"), MAC_SRV),
             (Ip::parse("fe80::2"), MAC_SRV),
         ];
-        let srcs6: Vec<Ip> = vec![cli6(), Ip::parse("::"), Ip::parse("fe80::1"), Ip::parse("::1"), Ip::parse("ff02::1"), Ip::parse("::ffff:10.0.0.9"), srv6(), cli6b()];
+        // incl. IPv6 addresses that merely EMBED a denied IPv4 address (they are not on the deny list)
+        let srcs6: Vec<Ip> = vec![cli6(), Ip::parse("::"), Ip::parse("fe80::1"), Ip::parse("::1"), Ip::parse("ff02::1"), Ip::parse("::ffff:10.0.0.9"), srv6(), cli6b(), Ip::parse("::ffff:10.66.6.6"), Ip::parse("::10.66.6.6"), Ip::parse("2002:a42:606::1"), Ip::parse("64:ff9b::10.66.6.6")];
         let dims = [tg.len() as u64, opts.len() as u64, 3, dsts.len() as u64, srcs6.len() as u64];
-        sweep_frames(rep, cfg, &format!("nd-ns-{}", tag), "target x options layout x code{0,1,255} x destination x source address (8, incl. the unspecified address)", crate::engine::product(&dims), |i| {
+        sweep_frames(rep, cfg, &format!("nd-ns-{}", tag), "target x options layout x code{0,1,255} x destination x source address (12, incl. the unspecified address and addresses embedding a denied IPv4 address)", crate::engine::product(&dims), |i| {
             let d = crate::engine::unrank(i, &dims);
             let (dip, dmac) = &dsts[d[3] as usize];
             let code = [0u8, 1, 255][d[2] as usize];
